@@ -522,6 +522,13 @@ def judge(ctx, N, rq, obs, line, case):
             ctx.violation('wrong_block_reason', f'gnpy {obs["out"]}, expected {reason}', case, flags=flags)
     # ---- correspondence: faithful model of compute_constrained_path
     if m.startswith('X'):
+        # 'u' = the uniqueness certificate explicit_forced holds: by explicit_forced_unique the explicit answer is the
+        # only route of the request, hence optimal (proved, not only compared with the enumeration)
+        ctx.count('explicit_unique_certified' if m[-2] == 'u' else 'explicit_not_certified')
+        if m[-2] != 'u':
+            ctx.corr_break('corr:Route.explicit_forced', 'an explicit answer does not pass the uniqueness certificate (the '
+                           'chain structure assumed of an OMS / a transceiver does not hold on this network)', case,
+                           impl=obs.get('path', obs['out']), model=m)
         if not (obs['out'] == 'P' and m.endswith('=')):
             ctx.corr_break('corr:Route.explicit_path', 'model returns an explicit path, gnpy something else', case,
                            impl=obs.get('path', obs['out']), model=m)
